@@ -12,6 +12,13 @@ from .c03 import make_scsi_device, make_iscsi_device
 from spec import facade as reffacade
 
 
+def fresh_device(prog):
+    """a device object as its constructor leaves it: no device type recorded yet"""
+    dev = make_scsi_device(prog)
+    dev.attrs.pop("_devicetype", None)
+    return dev
+
+
 def device_bytes_for(byte0):
     return lambda n: [byte0] + [0] * (min(n, 36) - 1)
 
@@ -28,7 +35,7 @@ def table_mutations_on_attach(prog):
         si = StandIn(prog, check_condition="never", device_bytes=device_bytes_for(dt)).install()
         try:
             def t():
-                dev = make_scsi_device(prog)
+                dev = fresh_device(prog)
                 dev.attrs["_opcodes"] = mod.env[reffacade.DEFAULT_SET]
                 I.instantiate(scsi_cls, [dev], {}, None, _F())
                 ev = [e for e in I.events if e["kind"] in ("static-mutation", "class-store", "global-store")
@@ -111,7 +118,7 @@ def check(prog, run, reps=None, only_reattach=False):
         si = StandIn(prog, check_condition="never", device_bytes=device_bytes_for(byte0)).install()
         try:
             def t():
-                dev = make_scsi_device(prog)
+                dev = fresh_device(prog)
                 dev.attrs["_opcodes"] = tables[reffacade.DEFAULT_SET]
                 if entry == "init":
                     s = I.instantiate(scsi_cls, [dev], {}, None, _F())
@@ -174,9 +181,9 @@ def check(prog, run, reps=None, only_reattach=False):
             si = StandIn(prog, check_condition="never").install()
             try:
                 def t(a=a, b=b):
-                    d1 = make_scsi_device(prog)
+                    d1 = fresh_device(prog)
                     d1.attrs["_opcodes"] = tables["spc"]
-                    d2 = make_scsi_device(prog)
+                    d2 = fresh_device(prog)
                     d2.attrs["_opcodes"] = tables["spc"]
                     si.device_bytes = device_bytes_for(a)
                     s = I.instantiate(scsi_cls, [d1], {}, None, _F())
